@@ -168,7 +168,7 @@ func runC02(c *core.Ctx) {
 	if !quick {
 		fb = 2
 	}
-	jobs = append(jobs, job{"S1-two-senders", fb, true}, job{"S3-resend-during-sends", fb, true})
+	jobs = append(jobs, job{"S1-two-senders", fb, true}, job{"S3-resend-during-sends", fb, true}, job{"S10-reset-on-disconnect", fb, true})
 	completed := map[string]int{}
 	for _, j := range jobs {
 		var mu sync.Mutex
